@@ -246,3 +246,150 @@ Proof.
 Qed.
 
 End Scoped.
+
+(* ------------------------------------------------------------------ 2. omitted content is inert *)
+Definition skip_event (e : event) : Prop :=
+  match e with EvEnter _ true => True | _ => False end.
+
+Section Omit.
+Variable pol : undefined_policy.
+Variable scope : loop_scope.
+Variable emp : empty_loop.
+Variable tol : bool.
+Variable rows : list raw.
+
+Lemma next_row_omit s s1 orow :
+  next_row pol rows s true = ROk (s1, orow) ->
+  p_ctx s1 = p_ctx s /\ p_log s1 = p_log s /\ (forall row, orow = Some row -> i_inc row = true).
+Proof.
+  unfold next_row. destruct (nth_error rows (p_pos s)) as [r|]; intros H; inversion H; subst; cbn [p_ctx p_log].
+  - repeat split. intros row Hr. inversion Hr; reflexivity.
+  - repeat split. intros row Hr. discriminate.
+Qed.
+
+Theorem omit_is_inert : forall fuel s bt s',
+  parse_block pol scope emp tol rows fuel s bt true = ROk s' ->
+  p_ctx s' = p_ctx s /\ exists ev, p_log s' = ev ++ p_log s /\ Forall skip_event ev.
+Proof.
+  induction fuel as [|f IH]; intros s bt s' H; cbn [parse_block] in H; [discriminate|].
+  destruct (next_row pol rows s true) as [[s1 orow]|] eqn:En; [|discriminate].
+  destruct (next_row_omit _ _ _ En) as [Hc1 [Hl1 _]].
+  destruct (end_of_block bt (option_map i_kind orow)) as [[|]|]; [| |discriminate].
+  { inversion H; subst. split; [exact Hc1|]. exists []. split; [exact Hl1|constructor]. }
+  destruct orow as [row|]; [|discriminate]. cbn [orb] in H.
+  assert (Hnest : forall b s2, parse_block pol scope emp tol rows f (log s1 (EvEnter b true)) b true = ROk s2 ->
+                   parse_block pol scope emp tol rows f s2 bt true = ROk s' ->
+                   p_ctx s' = p_ctx s /\ exists ev, p_log s' = ev ++ p_log s /\ Forall skip_event ev).
+  { intros b s2 E2 E3. destruct (IH _ _ _ E2) as [Hc2 [ev2 [Hl2 Hf2]]]. destruct (IH _ _ _ E3) as [Hc3 [ev3 [Hl3 Hf3]]].
+    cbn [log p_ctx p_log] in Hc2, Hl2. split; [congruence|].
+    exists (ev3 ++ ev2 ++ [EvEnter b true]). split.
+    - rewrite Hl3, Hl2, Hl1, <- !app_assoc. reflexivity.
+    - apply Forall_app. split; [exact Hf3|]. apply Forall_app. split; [exact Hf2|]. constructor; [exact I|constructor]. }
+  assert (Hplain : parse_block pol scope emp tol rows f s1 bt true = ROk s' ->
+                   p_ctx s' = p_ctx s /\ exists ev, p_log s' = ev ++ p_log s /\ Forall skip_event ev).
+  { intros E3. destruct (IH _ _ _ E3) as [Hc3 [ev3 [Hl3 Hf3]]]. split; [congruence|]. exists ev3. split; [congruence|exact Hf3]. }
+  destruct (i_kind row).
+  - destruct (parse_block pol scope emp tol rows f (log s1 (EvEnter BFor true)) BFor true) as [s2|] eqn:E2; [|discriminate].
+    exact (Hnest _ _ E2 H).
+  - exact (Hplain H).
+  - destruct (parse_block pol scope emp tol rows f (log s1 (EvEnter BBlock true)) BBlock true) as [s2|] eqn:E2; [|discriminate].
+    exact (Hnest _ _ E2 H).
+  - exact (Hplain H).
+  - exact (Hplain H).
+Qed.
+End Omit.
+
+(* ------------------------------------------------------------------ 3. a loop over nothing *)
+Lemma crestore_tolerant c x : crestore true c x (cget c x) = Some c.
+Proof.
+  unfold crestore. destruct (cget c x) as [v|] eqn:E.
+  - rewrite (cset_same _ _ _ E). reflexivity.
+  - rewrite (cpop_absent _ _ E). reflexivity.
+Qed.
+
+Lemma end_of_block_for bt : end_of_block bt (Some KBeginFor) = ROk false.
+Proof. destruct bt; reflexivity. Qed.
+
+(* the repaired code: the head is instantiated, the body is read with omit_content (nothing
+   in it is instantiated, see omit_is_inert), an empty group is registered under the head's
+   id, the context is the one the loop was reached with, and the enclosing block goes on *)
+Theorem empty_loop_pass_through : forall pol rows f s bt s1 row x rest,
+  next_row pol rows s false = ROk (s1, Some row) ->
+  i_kind row = KBeginFor -> i_inc row = true -> i_iter row = [] ->
+  i_vars row = x :: rest -> x <> [] ->
+  parse_block pol ScopeRestore EmptySkip true rows (S f) s bt false
+  = match parse_block pol ScopeRestore EmptySkip true rows f (log s1 (EvEnter BFor true)) BFor true with
+    | ROk s2 => parse_block pol ScopeRestore EmptySkip true rows f (log s2 (EvEnd (i_id row))) bt false
+    | RErr e => RErr e
+    end.
+Proof.
+  intros pol rows f s bt s1 row x rest En Hk Hi Hit Hv Hx.
+  cbn [parse_block]. rewrite En. cbn [option_map]. rewrite Hk, end_of_block_for, Hi. cbn [orb negb].
+  rewrite Hv, Hit. destruct x as [|x0 xr]; [contradiction|]. cbn [loop_iter].
+  destruct (parse_block pol ScopeRestore EmptySkip true rows f (log s1 (EvEnter BFor true)) BFor true) as [s2|] eqn:E2; [|reflexivity].
+  destruct (omit_is_inert _ _ _ _ _ _ _ _ _ E2) as [Hc2 _]. cbn [log p_ctx] in Hc2.
+  cbn [log p_ctx p_pos p_log saved_of]. rewrite Hc2, crestore_tolerant.
+  destruct rest as [|i rest']; [|destruct i as [|i0 ir]].
+  - destruct s2 as [q2 c2 l2]; cbn [p_pos p_ctx p_log] in *; subst; reflexivity.
+  - destruct s2 as [q2 c2 l2]; cbn [p_pos p_ctx p_log] in *; subst; reflexivity.
+  - rewrite crestore_tolerant. destruct s2 as [q2 c2 l2]; cbn [p_pos p_ctx p_log] in *; subst; reflexivity.
+Qed.
+
+(* ------------------------------------------------------------------ witnesses *)
+Local Open Scope N_scope.
+(* context {cx: "CXVAL", k: "K"};  sheet:
+     1 | begin_for | loop_variable i;cx | a;b        (the INDEX variable is named like the context entry)
+       | send_message | {{cx}}{{i}}
+       | end_for
+       | send_message | after {{cx}}                                                         *)
+Definition w_cx : str := [99; 120].
+Definition w_ctx : ctx := [(w_cx, VS [67; 88; 86; 65; 76]); ([107], VS [75])].
+Definition w_plain (t : list seg) : raw := mkRaw KPlain IncTrue [] t [] (ILit []).
+Definition w_rows : list raw :=
+  [mkRaw KBeginFor IncTrue [Lit [49]] [] [[105]; w_cx] (ILit [[97]; [98]]);
+   w_plain [Ref w_cx; Ref [105]];
+   mkRaw KEndFor IncTrue [] [] [] (ILit []);
+   w_plain [Lit [97; 102; 116; 101; 114; 32]; Ref w_cx]].
+
+(* repaired code: the row after end_for sees the outer value, the context is back *)
+Example ctx_preserved_nonvacuous :
+  parse_block Strict ScopeRestore EmptySkip true w_rows 50 (mkP 0 w_ctx []) BRoot false
+  = ROk (mkP 4 w_ctx
+           [EvRow [] [97; 102; 116; 101; 114; 32; 67; 88; 86; 65; 76]; EvInst 3; EvEnd [49];
+            EvInst 2; EvRow [] [49; 98]; EvInst 1; EvEnter BFor false;
+            EvInst 2; EvRow [] [48; 97]; EvInst 1; EvEnter BFor false; EvInst 0]).
+Proof. vm_compute. reflexivity. Qed.
+
+(* the code before the repair (dict.pop): the same sheet loses the outer binding — an error
+   under the strict undefined policy, a silently blank "after " and a smaller context under
+   the lenient one.  This is the recorded defect; ctx_preserved needs ScopeRestore. *)
+Example pop_loses_binding :
+  parse_block Strict ScopePop EmptyFallThrough false w_rows 50 (mkP 0 w_ctx []) BRoot false = RErr Undefined
+  /\ exists lg, parse_block Lenient ScopePop EmptyFallThrough false w_rows 50 (mkP 0 w_ctx []) BRoot false
+                = ROk (mkP 4 [([107], VS [75])] (EvRow [] [97; 102; 116; 101; 114; 32] :: lg)).
+Proof. split; [vm_compute; reflexivity|]. eexists. vm_compute. reflexivity. Qed.
+
+(* context {l: []};  sheet:  hi / 2 begin_for x in {@ l @} / {{x}} / begin_block / {{no}} / end_block / end_for / bye *)
+Definition e_ctx : ctx := [([108], VL [])].
+Definition e_rows : list raw :=
+  [w_plain [Lit [104; 105]];
+   mkRaw KBeginFor IncTrue [Lit [50]] [] [[120]] (IRef [108]);
+   w_plain [Ref [120]];
+   mkRaw KBeginBlock IncTrue [] [] [] (ILit []);
+   w_plain [Ref [110; 111]];
+   mkRaw KEndBlock IncTrue [] [] [] (ILit []);
+   mkRaw KEndFor IncTrue [] [] [] (ILit []);
+   w_plain [Lit [98; 121; 101]]].
+
+Example empty_loop_pass_through_nonvacuous :
+  (exists s1 row, next_row Strict e_rows (mkP 1 e_ctx []) false = ROk (s1, Some row)
+                  /\ i_kind row = KBeginFor /\ i_inc row = true /\ i_iter row = [] /\ i_vars row = [[120]])
+  /\ parse_block Strict ScopeRestore EmptySkip true e_rows 50 (mkP 0 e_ctx []) BRoot false
+     = ROk (mkP 8 e_ctx [EvRow [] [98; 121; 101]; EvInst 7; EvEnd [50]; EvEnter BBlock true; EvEnter BFor true;
+                         EvInst 1; EvRow [] [104; 105]; EvInst 0])
+  (* the code before the repair: the loop variable was never added *)
+  /\ parse_block Strict ScopePop EmptyFallThrough false e_rows 50 (mkP 0 e_ctx []) BRoot false = RErr KeyErr.
+Proof.
+  split; [|split; vm_compute; reflexivity].
+  eexists. eexists. split; [vm_compute; reflexivity|]. repeat split.
+Qed.
